@@ -1159,6 +1159,17 @@ class Interp:
         return Rat(widen_poly(r.n, self.widen_at), widen_poly(r.d, self.widen_at))
 
     # --- lookup
+    def module_global(self, m, name, modname):
+        """Value of a module-level assignment, evaluated once per loaded module: a mutable module global (a cache
+        dict, a registry) keeps its identity across calls and across interpreters, as it does in a process."""
+        g = m.setdefault('globals', {})
+        if name in g:
+            return g[name]
+        v = self.ev(m['consts'][name], {'v': {}, 'p': None}, modname)
+        if isinstance(v, (dict, list, set)):       # only mutable containers need an identity (values are re-evaluated:
+            g[name] = v                            # their representation depends on the current value domain)
+        return v
+
     def lookup(self, name, env, mod):
         e = env
         while e is not None:
@@ -1174,7 +1185,7 @@ class Interp:
             tgt = m['alias'][name]
             return self.resolve_dotted(tgt)
         if name in m['consts']:
-            return self.ev(m['consts'][name], {'v': {}, 'p': None}, mod)
+            return self.module_global(m, name, mod)
         if name in ('len', 'int', 'float', 'range', 'zip', 'enumerate', 'list', 'tuple', 'isinstance', 'sum', 'min', 'max', 'abs', 'str', 'dict', 'bool', 'reversed', 'sorted', 'any', 'all', 'set', 'super', 'getattr', 'hasattr'):
             return ('builtin', name)
         if name in ('True', 'False', 'None'):
@@ -1199,7 +1210,7 @@ class Interp:
                 if member in m['classes']:
                     return ClsRef(mod, m['classes'][member])
                 if member in m['consts']:
-                    return self.ev(m['consts'][member], {'v': {}, 'p': None}, mod)
+                    return self.module_global(m, member, mod)
                 raise OutOfFragment('cannot resolve ' + tgt)
         return ModRef(tgt)
 
@@ -1471,7 +1482,7 @@ class Interp:
                 if a in m['classes']:
                     return ClsRef(v.name, m['classes'][a])
                 if a in m['consts']:
-                    return self.ev(m['consts'][a], {'v': {}, 'p': None}, v.name)
+                    return self.module_global(m, a, v.name)
                 sub = v.name + '.' + a
                 try:
                     load(sub); return ModRef(sub)
